@@ -184,6 +184,81 @@ func runC20(r *Run) {
 	r.Rule("R4", "FLOW.queries-before-the-first-block: the process-local fields that the tabled idempotent sites re-derive in BeginBlock (evm Keeper.eip155ChainID via WithChainID) are nil on a node restarted at a block boundary until its first BeginBlock. In the query scope (everything reachable from the methods implementing a QueryServer interface, which such a node answers immediately) the chain id handed to (*Keeper).EVMConfig — the value the CHAINID opcode and the signer see — never derives from such a field or its getter (directly or through same-package helpers); consensus code may use it (BeginBlock has run)")
 	checkRederivedFieldReaders(r, sc)
 
+	// ---------- R5 ----------
+	r.Rule("R5", "TABLE.memory-stores: memory stores are empty after a restart. NewHaqq creates memory store keys only for the tabled dependency module that rebuilds its memory store itself (capability); no Haqq keeper is wired with a memory store key and no Haqq function passes a *MemoryStoreKey to ctx.KVStore — a consensus value parked in a memory store is gone on a restarted node")
+	{
+		allowedMem := map[string]string{"memory_capability": "capability module (SDK): re-initialises its memory store from the persistent store in BeginBlock/InitMemStore", "mem_capability": "capability module (SDK)", "memory:capability": "capability module (SDK): re-initialises its memory store from the persistent store (InitMemStore) on the first block after a restart"}
+		if nh, ok := P.FnOK("app.NewHaqq"); ok {
+			n := 0
+			eachCall(nh, func(ci CallInfo) {
+				if ci.Name != "NewMemoryStoreKeys" {
+					return
+				}
+				for _, a := range ci.Instr.Common().Args {
+					backSlice(a).Any(func(v ssa.Value) bool {
+						if name, ok := constString(v); ok {
+							n++
+							_, tabled := allowedMem[name]
+							r.Check(tabled, "R5", "app.NewHaqq#memory-store/"+name, P.Pos(instrPos(ci.Instr)), "tabled: "+allowedMem[name], "NewHaqq creates the memory store "+name+", which is not a tabled self-rebuilding store: whatever a module keeps there is lost when the node restarts")
+						}
+						return false
+					})
+				}
+			})
+			r.Count("R5 memory store keys created in NewHaqq", n)
+		}
+		bad := 0
+		for _, fn := range P.Funcs {
+			if isTestSupport(P, fn) || fn.Synthetic != "" || isGeneratedFile(P.FileOf(fnPos(fn))) || fnPkgPath(fn) == haqqMod+"/app" {
+				continue
+			}
+			eachCall(fn, func(ci CallInfo) {
+				if ci.Name != "KVStore" || !ci.Invoke && ci.Recv != "Context" {
+					return
+				}
+				for _, a := range ci.Instr.Common().Args {
+					hit := false
+					backSlice(a).Any(func(v ssa.Value) bool {
+						if namedName(deref(v.Type())) == "MemoryStoreKey" {
+							hit = true
+						}
+						return hit
+					})
+					if hit {
+						bad++
+						r.Bad("R5", fnID(fn)+"#opens-memory-store", P.Pos(instrPos(ci.Instr)), "a Haqq function opens a memory store: its content does not survive a restart, so a restarted node computes with different data than one that kept running")
+					}
+				}
+			})
+		}
+		// keeper fields of memory-store-key type
+		for _, pk := range P.Pkgs {
+			if pk.Types == nil || pk.PkgPath == haqqMod+"/app" {
+				continue
+			}
+			sc2 := pk.Types.Scope()
+			for _, nm := range sc2.Names() {
+				tn, ok := sc2.Lookup(nm).(*types.TypeName)
+				if !ok {
+					continue
+				}
+				st, ok := tn.Type().Underlying().(*types.Struct)
+				if !ok {
+					continue
+				}
+				for i := 0; i < st.NumFields(); i++ {
+					if namedName(deref(st.Field(i).Type())) == "MemoryStoreKey" {
+						bad++
+						r.Bad("R5", strings.TrimPrefix(pk.PkgPath, haqqMod+"/")+"."+nm+"#memory-store-key-field", P.Pos(st.Field(i).Pos()), "a Haqq type holds a *MemoryStoreKey: module data kept in a memory store is lost on restart")
+					}
+				}
+			}
+		}
+		if bad == 0 {
+			r.OK("R5", "no-haqq-memory-store", "", "no Haqq package outside app wiring refers to a memory store key")
+		}
+	}
+
 	// ---------- R2 ----------
 	for _, id := range []string{"(*x/evm/keeper.Keeper).AddEVMExtensions", "(x/erc20/keeper.Keeper).RegisterERC20Extensions"} {
 		fn, ok := P.FnOK(id)
